@@ -14,9 +14,16 @@ KNOWN_PINNED = {
 QUOTA_KEYS = {"conncode-create-quota": "conncode-create-quota-race",
               "conncode-activate-mapping-quota": "conncode-activate-mapping-quota-race"}
 
+# a single failing storage read during the count at a FULL quota must never admit the request
+FAULT_KEYS = {"conncode-create-quota-read-fault-admitted": ("code_fault", "conncode-create-quota-fails-open-on-read-fault"),
+              "conncode-activate-mapping-quota-read-fault-admitted": ("mapping_fault", "conncode-activate-quota-fails-open-on-read-fault")}
+
 PROBES = [
     {"mode": "server", "max": 1, "pre": 0, "closes": [False, False], "sched": [0, 1, 0, 1]},
     {"mode": "mapseq", "kind": "mapping", "max": 1, "ops": [[0], [0]]},
+    {"mode": "quota", "kind": "code", "max": 2, "pre": 1, "threads": 2, "sched": [0, 1, 0, 1]},
+    {"mode": "quota", "kind": "mapping", "max": 2, "pre": 1, "threads": 2, "sched": [0, 1, 0, 1]},
+    {"mode": "qfault", "kind": "mapping", "max": 2},
 ]
 
 
@@ -95,6 +102,12 @@ def gen_quota(rng):
     return {"mode": "quota", "kind": rng.choice(["code", "mapping"]), "max": mx, "pre": pre, "threads": n, "sched": sched}
 
 
+def qfault_cases(thorough):
+    """exhaustive over the read positions of the count (the harness enumerates them) for a few limits"""
+    limits = [1, 2, 3, 5, 10] + ([7, 16] if thorough else [])
+    return [{"mode": "qfault", "kind": k, "max": m} for k in ("code", "mapping") for m in limits]
+
+
 def gen_maprace(rng, trials):
     mx = rng.choice([1, 1, 2, 3])
     return {"mode": "maprace", "kind": rng.choice(["user", "user", "mapping"]), "max": mx,
@@ -121,7 +134,13 @@ def case_value(c, o, variants):
         return [2, variants["mapping"], c["max"], [list(op) for op in c["ops"]], [[a, b] for a, b in o["counts"]],
                 list(o["outcomes"])]
     if m == "quota":
-        return [3, c["max"], c["pre"], c["threads"], list(o["sched"]), [[a, b] for a, b in o["counts"]], list(o["outcomes"])]
+        return [3, variants["quota_" + c["kind"]], c["max"], c["pre"], c["threads"], list(o["sched"]),
+                [[a, b] for a, b in o["counts"]], list(o["outcomes"])]
+    if m == "qfault":
+        # policy: 0 = a failing read aborts the admission (the code's CreateConnectionCode; the statement's reading),
+        #         2 = failing index read = empty listing, failing by-id read skipped (ActivateConnectionCode as found)
+        policy = 0 if c["kind"] == "code" else variants["mapping_fault"]
+        return [4, policy, c["max"], c["max"], list(o["keys"][0]) if o["keys"] else [], list(o["outcomes"])]
     return None
 
 
@@ -147,7 +166,9 @@ def nontrivial(c, o):
     if m == "mapseq":
         return c["max"] > 0 and (2 in o["outcomes"] or o["max_seen"] > c["max"])
     if m == "quota":
-        return not overlap_free(o["sched"], c["threads"]) or 2 in o["outcomes"]
+        return not overlap_free(o["sched"], c["threads"]) or 2 in o["outcomes"] or 5 in o["outcomes"]
+    if m == "qfault":
+        return len(o["outcomes"]) >= 2
     if m in ("maprace", "regrace"):
         return c["max"] > 0 and c["pre"] + c["n"] > c["max"]
     return False
@@ -167,7 +188,11 @@ def run(ctx, only_cases=None):
 
     # which variant of the two repairable call sites does this tree contain?  (behavioural probe, deterministic)
     pr = vlib.run_harness(binary, PROBES, timeout=120)
-    variants = {"server": 0 if pr[0]["final"] == 2 else 1, "mapping": 0 if pr[1]["max_seen"] == 2 else 1}
+    variants = {"server": 0 if pr[0]["final"] == 2 else 1, "mapping": 0 if pr[1]["max_seen"] == 2 else 1,
+                # per-client admission marker around count + create present?  (pinned: count/count/create/create exceeds)
+                "quota_code": 0 if pr[2]["final"] == 3 else 1, "quota_mapping": 0 if pr[3]["final"] == 3 else 1,
+                # does the activation's listing turn a failing read into an under-count?  (2 = Open policy, 0 = aborts)
+                "mapping_fault": 2 if 2 in pr[4]["outcomes"] else 0, "code_fault": 0}
 
     if only_cases is not None:
         cases = only_cases
@@ -181,6 +206,7 @@ def run(ctx, only_cases=None):
         cases += [gen_reg(rng) for _ in range(300 * k)]
         cases += [gen_mapseq(rng) for _ in range(60 * k)]
         cases += [gen_quota(rng) for _ in range(120 * k)]
+        cases += qfault_cases(thorough)
         cases += [gen_maprace(rng, 1500 if thorough else 250) for _ in range(16 if thorough else 8)]
         cases += [gen_regrace(rng, 200 if thorough else 30) for _ in range(12 if thorough else 6)]
     outs = vlib.run_harness(binary, cases, timeout=1500)
@@ -196,9 +222,17 @@ def run(ctx, only_cases=None):
             site, pinned_key, other = KNOWN_PINNED[hk]
             key = pinned_key if variants[site] == 0 else other
         elif hk in QUOTA_KEYS:
-            # the recorded defect is the overlap of two admissions between count and create; over the limit on an
-            # overlap-free schedule would be a different (new) failure
-            key = QUOTA_KEYS[hk] if not overlap_free(o["sched"], c["threads"]) else hk + "-without-overlap"
+            # the recorded defect is the overlap of two admissions between count and create on a tree WITHOUT the per-client
+            # admission marker; over the limit on an overlap-free schedule, or on a tree with the marker, is a new failure
+            if variants["quota_" + c["kind"]] == 1:
+                key = hk + "-exceeded-on-repaired-tree"
+            else:
+                key = QUOTA_KEYS[hk] if not overlap_free(o["sched"], c["threads"]) else hk + "-without-overlap"
+        elif hk in FAULT_KEYS:
+            site, known_key = FAULT_KEYS[hk]
+            # known only for the call site whose listing is lenient BY DESIGN on this tree (activation); for
+            # CreateConnectionCode the code aborts on a failing read, so an admission there is always a new failure
+            key = known_key if variants[site] == 2 else hk
         fail_keys[key] = fail_keys.get(key, 0) + 1
         if fail_keys[key] <= 1:
             small = dict(o)
@@ -206,7 +240,7 @@ def run(ctx, only_cases=None):
                 small["admitted"] = small["admitted"][:40] + ["..."]
             ctx.violation(key, "real code, mode %s: %s" % (c["mode"], o["prop_msg"]), {"case": c, "observed": small})
 
-    mc = [(c, o) for c, o in zip(cases, outs) if c["mode"] in ("server", "reg", "mapseq", "quota") and o["prop_key"] != "harness"]
+    mc = [(c, o) for c, o in zip(cases, outs) if c["mode"] in ("server", "reg", "mapseq", "quota", "qfault") and o["prop_key"] != "harness"]
     terms = [case_value(c, o, variants) for c, o in mc]
     mism = []
     try:
@@ -222,13 +256,13 @@ def run(ctx, only_cases=None):
     reported = set()
     for i in mism:
         c, o = mc[i]
-        key = "model-mismatch-" + c["mode"] + ("-" + c["kind"] if c["mode"] in ("reg", "quota") else "")
+        key = "model-mismatch-" + c["mode"] + ("-" + c["kind"] if c["mode"] in ("reg", "quota", "qfault") else "")
         if key in reported:
             continue
         reported.add(key)
-        ctx.violation(key, "Corr/C17.check: the Limits model (%s variant) and the real code disagree on a replayed %s case "
+        ctx.violation(key, "Corr/C17.check: the Limits model (tree variants detected: %s) and the real code disagree on a replayed %s case "
                       "(occupancy after some step or a caller's outcome differs)"
-                      % ("repaired" if variants.get("server" if c["mode"] == "server" else "mapping", 1) else "pinned", c["mode"]),
+                      % (json.dumps(variants), c["mode"]),
                       {"case": c, "observed": o, "variants": variants}, found_input=not o["prop_ok"])
 
     nontriv = set()
@@ -239,10 +273,10 @@ def run(ctx, only_cases=None):
             nontriv.add(json.dumps(c, sort_keys=True))
     trials = sum(c.get("trials", 0) for c in cases if c["mode"] in ("maprace", "regrace"))
     samples = []
-    for want in ("server", "quota", "reg", "mapseq"):
+    for want in ("server", "quota", "qfault", "reg", "mapseq"):
         for c, o in zip(cases, outs):
             if c["mode"] == want and nontrivial(c, o):
-                samples.append({"case": c, "observed": {k: o[k] for k in ("sched", "counts", "outcomes", "max_seen", "prop_ok")}})
+                samples.append({"case": c, "observed": {k: o[k] for k in ("sched", "counts", "outcomes", "keys", "max_seen", "prop_ok")}})
                 break
     ctx.coverage.update({
         "evaluations": len(cases) + trials,
@@ -253,12 +287,17 @@ def run(ctx, only_cases=None):
                 "real TunnelRegistry / ClientRegistry / SessionManager control registrations, non-trivial = limit reached. mapseq: open/close "
                 "histories with real tunnels, non-trivial = a refusal or the limit exceeded. quota: CreateConnectionCode / ActivateConnectionCode "
                 "callers parked at their first storage write by a gated store, non-trivial = two admissions overlap between count and create, "
-                "or a refusal. maprace/regrace: barrier-released contention trials (counted in evaluations, one distinct case per configuration). "
+                "or a refusal. qfault: the same two requests at a FULL quota, once per storage read position of the count (index GetList, every "
+                "by-id Get, reads before the count) with exactly that read failing; predicate: never admitted, stored key set unchanged; "
+                "exhaustive over the positions for limits 1,2,3,5,10; non-trivial = at least two positions. maprace/regrace: barrier-released contention trials (counted in evaluations, one distinct case per configuration). "
                 "distinct by the whole case.",
-        "samples": samples[:4],
+        "samples": samples[:5],
         "model_vs_impl_cases": len(terms), "model_vs_impl_mismatches": len(mism), "impl_property_failures": nfail,
         "impl_property_failures_by_key": fail_keys,
-        "tree_variants_detected": {k: ("pinned" if v == 0 else "repaired") for k, v in variants.items()},
+        "tree_variants_detected": dict({k: ("pinned" if variants[k] == 0 else "repaired") for k in ("server", "mapping", "quota_code", "quota_mapping")},
+                                       code_count_on_read_fault="aborts (fail closed)",
+                                       activation_count_on_read_fault="lenient listing (fails open)" if variants["mapping_fault"] == 2 else "aborts (fail closed)"),
+        "read_fault_positions_tried": sum(len(o["outcomes"]) for c, o in zip(cases, outs) if c["mode"] == "qfault"),
         "input_distribution": dict(dist, contention_trials=trials,
                                    limits=sorted(set(c["max"] for c in cases)),
                                    server_all_check_first=sum(1 for c in cases if c["mode"] == "server" and sorted(c["sched"][:len(c["closes"])]) == list(range(len(c["closes"])))),
@@ -272,8 +311,12 @@ def run(ctx, only_cases=None):
         "the model has the finer four-step program and is proved for every interleaving of it",
         "client mapping cap: the Load/CAS interleavings are exercised by contention trials only (no gate exists between them); "
         "whole-connection histories (slot held until the tunnel closes) are replayed deterministically",
-        "per-client quotas: genuinely exceeded under overlap (known findings); the positive theorem is guarded by overlap_free; "
-        "activation fails open when the mapping list cannot be read (as coded, not modelled); TTL expiry of codes is not exercised",
+        "per-client quotas on a tree without the admission marker: genuinely exceeded under overlap (known findings), positive theorem guarded by "
+        "overlap_free; with fixes/C17-quota-per-client-admission.diff: proved for every schedule assuming the marker's TTL (30 s) outlives one admission; "
+        "TTL expiry of codes is not exercised",
+        "read faults: an injected fault is a non-not-found error on exactly one Get/GetList of the requesting goroutine; a not-found answer is "
+        "the legitimate 'expired entry' path and is not injected; the activation's count (generic repository List/Get) turns a failing read into "
+        "an under-count by design (known finding, refuted in the model as policy Open)",
         "stream/quota_enforcer.go enforces a monthly traffic volume, not an occupancy limit: outside the statement, not modelled",
     ]
     if broken is not None:
